@@ -84,8 +84,8 @@ def report_sites(ctx, rep, rule, scope, classes=None, what=""):
         b = facts.bodies[p]
         if classes is not None and o["cls"] not in classes:
             continue
-        if o["kind"] == "probe":
-            continue   # semantic probes are reported by their own rule (codec.oid_print)
+        if o["kind"] in ("probe", "cover"):
+            continue   # semantic probes / coverage observations are reported by their own rules (codec.oid_print, codec.tail_cover)
         if numrun.is_glue(b):
             glue.append("%s [%s]" % (p, o["key"][:60]))
             continue
